@@ -90,3 +90,13 @@ package common
 //@   ensures [copied] metaeq(metaof(p), m) && metavalid(metaof(p)) == metavalid(m)
 //@   ensures [kept] m.magic == old(m.magic) && m.version == old(m.version) && m.pageSize == old(m.pageSize) && m.flags == old(m.flags) && m.root.root == old(m.root.root) && m.root.sequence == old(m.root.sequence) && m.freelist == old(m.freelist) && m.pgid == old(m.pgid) && m.txid == old(m.txid)
 //@   modifies p.id, p.flags, m.checksum, metaof(p).magic, metaof(p).version, metaof(p).pageSize, metaof(p).flags, metaof(p).root, metaof(p).freelist, metaof(p).pgid, metaof(p).txid, metaof(p).checksum
+
+//@ func LoadPage
+//@   trusted
+//@   ensures result == pageat(buf) && result != nil
+//@   modifies nothing
+
+//@ func LoadPageMeta
+//@   trusted
+//@   ensures result == metaof(pageat(buf)) && result != nil
+//@   modifies nothing
